@@ -547,11 +547,9 @@ class ASTListener(ModelicaListener):
             if import_list is not None:
                 package_name = import_clause.components.pop()
                 # Append list of names to package_name to get fully qualified name(s)
-                # Skip the comma separators in import_list.children
-                for ident in import_list.children[::2]:
-                    qualified_name = package_name.concatenate(
-                        package_name.from_string(ident.getText())
-                    )
+                # import_list is right-recursive, so split its text on the comma separators
+                for ident in import_list.getText().split(","):
+                    qualified_name = package_name.concatenate(package_name.from_string(ident))
                     import_clause.components.append(qualified_name)
             elif ctx.getChildCount() > 3:
                 import_clause.unqualified = True
